@@ -254,11 +254,15 @@ def engine_check(pid, fams, tier_, maxruns, level_note="", props=None, extra_cov
         h1files = list(files)
         h2execs = 0
         if h2:
-            scen2 = load_scenarios(h2["fams"], sd)
-            if h2.get("limit") and len(scen2) > h2["limit"]:
+            # families marked keep=True always run in full; the others share what is left of the limit
+            kept = load_scenarios([f for f in h2["fams"] if f.get("keep")], sd) if any(f.get("keep") for f in h2["fams"]) else []
+            scen2 = load_scenarios([f for f in h2["fams"] if not f.get("keep")], sd) if any(not f.get("keep") for f in h2["fams"]) else []
+            room = max(0, h2["limit"] - len(kept)) if h2.get("limit") else None
+            if room is not None and len(scen2) > room:
                 import random
                 random.Random(sd).shuffle(scen2)
-                scen2 = scen2[:h2["limit"]]
+                scen2 = scen2[:room]
+            scen2 = kept + scen2
             for s2 in scen2:
                 s2["id"] = "h2:" + s2["id"]
                 by_id[s2["id"]] = s2
